@@ -39,6 +39,7 @@ structure PState where
   paused   : Bool := false        -- request manager: `ipr.state == graphsync.Paused`
   pauseTok : Bool := false        -- a token waits in `ipr.pauseMessages`
   hookAt   : List Nat := []       -- block indices (BlockData.Index) at which the block hook calls PauseRequest
+  pendingErr : Option RErr := none  -- the traverser has completed with this error, the executor has not looked yet
 deriving Repr
 
 /-- `processResult`: the block hook runs only for a load answered with data; the pause channel is read
@@ -58,22 +59,62 @@ def afterLoad (s : PState) (loaded : Bool) (cont : PState → PState × List Ev)
   | (true, s1) => stopForPause s1
   | (false, s1) => cont s1
 
+/-- the load of `n` failed in a way that ends the traversal — `advanceTraversal` hands the error to the
+    traverser (`Traverser.Error`), which completes with it: SkipMe for a missing root (reported as a
+    generic error), the load error itself otherwise.  A missing link below the root does not. -/
+def endsTraversal (n : LNode) (res : Result) : Option RErr :=
+  match res.err with
+  | none => none
+  | some (.missing _ _) => if n.depth == 0 then some .other else none
+  | some e => some (.load e)
+
+/-- the load error and the completion error, if the result of the load of `n` ends the traversal
+    (nothing of the sort once the request context is cancelled: `advanceTraversal` then returns a
+    context-cancel error without touching the traverser) -/
+def endsWith (s : PState) (n : LNode) (res : Result) : Option (RErr × LoadErr) :=
+  if s.R.ctxCancelled then none else
+  match res.err with
+  | none => none
+  | some e =>
+    match endsTraversal n res with
+    | some e' => some (e', e)
+    | none => none
+
+/-- what `traverse` does with the result of the load of `n` (`ev1` = what `loadNode` reported).
+    `advanceTraversal` reports a load error to the caller and hands it to the traverser; `processResult`
+    — the pause check — runs BEFORE the loop looks at `IsComplete` again, so a pause can take effect between
+    the error that ends the traversal and the executor noticing the end (`pendingErr`). -/
+def afterResult (s : PState) (n : LNode) (rest : LT) (res : Result) (ev1 : List Ev)
+    (cont : PState → PState × List Ev) : PState × List Ev :=
+  match endsWith s n res with
+  | some (e', e) =>
+    let evs0 := ev1 ++ writeEvs res ++ [Ev.err (.load e)]
+    match pauseCheck s false with
+    | (true, s1) => ((stopForPause { s1 with pendingErr := some e' }).1, evs0 ++ (stopForPause { s1 with pendingErr := some e' }).2)
+    | (false, s1) => ({ s1 with R := (failWith s1.R e').1 }, evs0 ++ (failWith s1.R e').2)
+  | none =>
+    match handle s.R n rest res with
+    | (r2, evs, true) =>
+      ((afterLoad { s with R := r2 } res.err.isNone cont).1, ev1 ++ evs ++ (afterLoad { s with R := r2 } res.err.isNone cont).2)
+    | (r2, evs, false) => ({ s with R := r2 }, ev1 ++ evs)
+
 /-- `executor.traverse` with the pause check, run until it parks in `waitRemote`, pauses or ends -/
 def driveP : Nat → PState → PState × List Ev
   | 0, s => (s, [])
   | fuel + 1, s =>
     if s.R.phase != .running || s.paused then (s, []) else
+    match s.pendingErr with
+    | some e' =>
+      -- IsComplete: the traversal has ended with an error while the request was pausing
+      let (r2, ev) := failWith s.R e'
+      ({ s with R := r2, pendingErr := none }, ev)
+    | none =>
     match s.R.todo with
     | [] => let (r, evs) := finish s.R; ({ s with R := r }, evs)
     | n :: rest =>
       match loadNode s.R n with
       | (r1, ev1, none) => ({ s with R := r1 }, ev1)
-      | (r1, ev1, some res) =>
-        match handle r1 n rest res with
-        | (r2, evs, true) =>
-          let (s3, evs') := afterLoad { s with R := r2 } res.err.isNone (driveP fuel)
-          (s3, ev1 ++ evs ++ evs')
-        | (r2, evs, false) => ({ s with R := r2 }, ev1 ++ evs)
+      | (r1, ev1, some res) => afterResult { s with R := r1 } n rest res ev1 (driveP fuel)
 
 /-- NewRequest -/
 def request (s : PState) (lt : LT) (userSkip : Nat) : PState × List Ev :=
@@ -99,11 +140,7 @@ def resumeP (s : PState) : PState × List Ev :=
   | (l1, some r) =>
     match s.R.todo with
     | n :: rest =>
-      match handle { s.R with L := l1 } n rest r with
-      | (r2, evs, true) =>
-        let (s3, evs') := afterLoad { s with R := r2 } r.err.isNone (fun s' => driveP (fuelFor s'.R) s')
-        (s3, evs ++ evs')
-      | (r2, evs, false) => ({ s with R := r2 }, evs)
+      afterResult { s with R := { s.R with L := l1 } } n rest r [] (fun s' => driveP (fuelFor s'.R) s')
     | [] => ({ s with R := { s.R with L := l1 } }, [])
   | (l1, none) => ({ s with R := { s.R with L := l1 } }, [])
 
